@@ -146,6 +146,15 @@ CHECKS.update({
     ),
 })
 
+CHECKS.update({
+    "C10": (
+        "Hypothesis histories of public-API operations over live, re-used objects (model-based: every step's closed recipe is re-evaluated alone in a fresh interpreter); frame invariant on the fingerprints of all live objects after every step",
+        "Generated histories (compile with varied options, bind, defs=[live], oraclize, four algorithm constructors, four exporters, decompile, circuit optimizer, truth_table, to_logicfun, repr) over a pool of programs with clashing and module-colliding names are executed in one process; each result's fingerprint must equal the one obtained by running the same recipe alone in a fresh interpreter, no live object's fingerprint may ever change, and a step may raise only if the fresh run raises. Sampled histories of 4..12 operations; every case starts from the library's import-time module state.",
+        "Fingerprints cover name, args, returns, expressions, gate list, qubit map and qubit lists (exporter text / op lists for exports); fresh interpreters share PYTHONHASHSEED=0.",
+        "DESIGN.md section 3 C10",
+    ),
+})
+
 NOT_YET = "check not built yet in this session (work in progress; see DESIGN.md section 3)"
 
 
